@@ -143,6 +143,27 @@ impl Rec {
         let f = |x: bool| if x { '1' } else { '0' };
         self.ev(format!("rel {} {} {}{}{}{}{}{}{}", hex80(a), hex80(b), f(lt), f(le), f(gt), f(ge), f(eq), f(ne), pc));
     }
+    /// the relations of a value with itself through one and the same reference on both sides (a shortcut keyed on
+    /// the operands' addresses is wrong for NaN); logged as an ordinary `rel x x` event
+    fn rel_alias(&mut self, a: f80) {
+        let x = a;
+        let r: &f80 = &x;
+        let lt = lib!(r < r);
+        let le = lib!(r <= r);
+        let gt = lib!(r > r);
+        let ge = lib!(r >= r);
+        let eq = lib!(r == r);
+        let ne = lib!(r != r);
+        let pc = match lib!(PartialOrd::partial_cmp(r, r)) {
+            Some(Ordering::Less) => 'L',
+            Some(Ordering::Equal) => 'E',
+            Some(Ordering::Greater) => 'G',
+            None => 'N',
+        };
+        self.check_state("partial_cmp");
+        let f = |x: bool| if x { '1' } else { '0' };
+        self.ev(format!("rel {} {} {}{}{}{}{}{}{}", hex80(x), hex80(x), f(lt), f(le), f(gt), f(ge), f(eq), f(ne), pc));
+    }
     fn all_ops(&mut self, a: f80, b: f80, assign_forms: bool) -> [f80; 4] {
         let r = [self.bin("add", a, b), self.bin("sub", a, b), self.bin("mul", a, b), self.bin("div", a, b)];
         if assign_forms {
@@ -287,6 +308,21 @@ fn main() {
             rec.un("neg", x);
             rec.un("abs", x);
             rec.back(x);
+            rec.rel_alias(x);
+        }
+        // small integers and simple fractions, one by one (conversion in, arithmetic, conversion out): not boundary values
+        // of the format, but the values programs actually use
+        for i in -130i32..=1030 {
+            let x = rec.cvt(i as f64);
+            rec.back(x);
+            let y = rec.cvt(i as f64 / 8.0);
+            rec.back(y);
+            if i % 7 == 0 {
+                let one = rec.cvt(1.0);
+                let s = rec.bin("add", x, one);
+                rec.back(s);
+                rec.rel(x, y);
+            }
         }
         for (i, &x) in conv.iter().enumerate() {
             for (j, &y) in conv.iter().enumerate() {
@@ -311,6 +347,7 @@ fn main() {
             if rng.chance(1, 4) {
                 rec.un("neg", fx);
                 rec.un("abs", fy);
+                rec.rel_alias(res[rng.usize_below(4)]);
             }
         }
         // (3) chains of depth <= 4 whose intermediates need all 64 significand bits
